@@ -139,7 +139,7 @@ def exit_blocks(case, lst):
             continue
         if et == "return":
             res.add(b)
-        elif et != "call":
+        elif et not in ("call", "syscall"):
             tb = start.get((tgt[1], tgt[2])) if tgt[0] == "pos" else None
             if tb is None or lst.block_fn.get(tb) != fn:
                 res.add(b)
@@ -154,7 +154,7 @@ def terminator_index(case, lst, bid):
     if not n:
         return 0
     kind = vocab.VOCAB[case["isa"]][blk["items"][-1]["k"]]["kind"]
-    if kind in ("jmp", "jcc", "call", "ret", "ijmp", "icall"):
+    if kind in ("jmp", "jcc", "call", "ret", "ijmp", "icall", "syscall"):
         return n - 1
     return n
 
